@@ -87,6 +87,32 @@ type c11Moduli struct {
 	rng   *rand.Rand
 	bits  int
 	cache map[string][]*big.Int
+	trs   map[string]*pcTr // honest proofs (the provers of dln and mod take a second)
+}
+
+// honest returns (a copy of) an honest transcript, produced once per key
+func (m *c11Moduli) honest(key string, mk func() *pcTr) *pcTr {
+	m.mu.Lock()
+	defer m.mu.Unlock()
+	t, ok := m.trs[key]
+	if !ok {
+		t = mk()
+		m.trs[key] = t
+	}
+	if t == nil {
+		return nil
+	}
+	c := *t
+	c.I = map[string]*big.Int{}
+	for k, v := range t.I {
+		c.I[k] = v
+	}
+	c.V = map[string][]*big.Int{}
+	for k, v := range t.V {
+		c.V[k] = append([]*big.Int{}, v...)
+	}
+	c.E, c.EV = nil, nil
+	return &c
 }
 
 func (m *c11Moduli) get(name string, mk func(rng *rand.Rand) []*big.Int) []*big.Int {
@@ -286,6 +312,58 @@ func c11Run(sc c11Scenario, keys []eckg.LocalPartySaveData, mods *c11Moduli) (re
 		t := pcNewTr("dln")
 		t.I["h1"], t.I["h2"], t.I["N"] = h1, h2, N
 		t.fromDln(pf)
+		present(t)
+	case "dln/iteration_unchecked", "pai/iteration_unchecked", "mod/iteration_unchecked_X", "mod/iteration_unchecked_Z":
+		// an honest proof of a true statement (vendored set), one iteration's response replaced by response + 1
+		fixedSess := []byte("c11-iteration")
+		k := pcB(77)
+		t := mods.honest(fmt.Sprintf("%s-%d", sc.Sys, sc.I), func() *pcTr {
+			t := pcNewTr(sc.Sys)
+			hl := pump.NewDRBG(int64(sc.I)*91 + 7)
+			switch sc.Sys {
+			case "dln":
+				var pf *dlnproof.Proof
+				if pan := pcCall(func() { pf = dlnproof.NewDLNProof(A.H1i, A.H2i, A.Alpha, A.P, A.Q, A.NTildei, hl) }); pan != "" || pf == nil {
+					return nil
+				}
+				t.I["h1"], t.I["h2"], t.I["N"] = A.H1i, A.H2i, A.NTildei
+				t.fromDln(pf)
+			case "pai":
+				var pf paillier.Proof
+				if pan := pcCall(func() { pf = A.PaillierSK.Proof(k, A.ECDSAPub) }); pan != "" {
+					return nil
+				}
+				t.Bound, t.PaiK, t.PaiPt = 1000, k, pcFromEC(A.ECDSAPub)
+				t.I["N"] = A.PaillierSK.N
+				t.fromPai(pf)
+			default:
+				var pf *modproof.ProofMod
+				var err error
+				if pan := pcCall(func() { pf, err = modproof.NewProof(fixedSess, A.PaillierSK.N, A.PaillierSK.P, A.PaillierSK.Q, hl) }); pan != "" || err != nil || pf == nil {
+					return nil
+				}
+				t.Sess = fixedSess
+				t.I["N"] = A.PaillierSK.N
+				t.fromMod(pf)
+			}
+			return t
+		})
+		if t == nil || !t.complete() {
+			noProof(nil, "the honest prover failed")
+			return
+		}
+		idx := map[string]int{"first": 0, "middle": t.K / 2, "last": t.K - 1}[sc.Size]
+		name := map[string]string{"dln/iteration_unchecked": "t", "pai/iteration_unchecked": "y", "mod/iteration_unchecked_X": "X", "mod/iteration_unchecked_Z": "Z"}[sc.Sys+"/"+sc.Family]
+		mod := t.I["N"]
+		v := new(big.Int).Add(t.V[name][idx], pc1)
+		if sc.Sys != "dln" {
+			v.Mod(v, mod)
+			if v.Sign() == 0 {
+				v = pcB(2)
+			}
+		}
+		t.V[name][idx] = v
+		res.Notes = append(res.Notes, fmt.Sprintf("iteration %d of %d", idx, t.K))
 		present(t)
 	case "pai/small_prime_factor":
 		ps := map[string]int64{"3": 3, "5": 5, "997": 997}[sc.Size]
@@ -715,7 +793,8 @@ func c11Plan(ctx *core.Ctx, rows []c11Row) []c11Scenario {
 			}
 		} else {
 			// every size of the cheap systems, one (rotating) size of the expensive ones
-			if r.Sys == "dln" || r.Sys == "mod" || r.Sys == "pai" {
+			// (the iteration families re-use one honest proof and only verify: all their sizes)
+			if (r.Sys == "dln" || r.Sys == "mod") && !strings.HasPrefix(r.Family, "iteration_") {
 				add(r, r.Sizes[int(ctx.Seed)%len(r.Sizes)], curves[0])
 				continue
 			}
@@ -766,7 +845,7 @@ func C11(ctx *core.Ctx) error {
 			return core.Inconcl("parameter set %d is incomplete", i)
 		}
 	}
-	mods := &c11Moduli{rng: rand.New(rand.NewSource(ctx.Seed*7 + 11)), bits: 2048, cache: map[string][]*big.Int{}}
+	mods := &c11Moduli{rng: rand.New(rand.NewSource(ctx.Seed*7 + 11)), bits: 2048, cache: map[string][]*big.Int{}, trs: map[string]*pcTr{}}
 	report := func(r *c11Result) {
 		for _, v := range r.Viols {
 			ctx.Report(v.Key, v.What, r.Sc)
